@@ -145,11 +145,18 @@ Section Frame.
   Lemma Q_exec_op R (GR : q_runner R) lm s self p o s' : exec_op cfg R lm s self p o = Some s' -> Q s s'.
   Proof.
     intros H. destruct o; cbn [exec_op] in H.
-    - destruct (lm && qualified); [discriminate|].
-      match type of H with (if ?c then _ else _) = _ => destruct c end; [inversion H; subst; apply Q_refl|].
-      eapply Q_trans; [|eapply Q_do_hits; eassumption].
-      destruct (in_attack s); [apply Q_refl|]. destruct qualified; [|apply Q_refl].
-      via_emit. apply Q_same; reflexivity.
+    - match type of H with (if ?c then _ else _) = _ => destruct c end; [inversion H; subst; apply Q_refl|].
+      destruct (in_attack s); [eapply Q_do_hits; eassumption|].
+      destruct qualified; [|eapply Q_do_hits; eassumption].
+      destruct lm; [discriminate|].
+      destruct (pop_slot (set_attack s (Some (key, self))) LAttackStart) as [sc s1] eqn:EP.
+      match type of H with match ?r with _ => _ end = _ => destruct r as [s2|] eqn:ER; [|discriminate] end.
+      assert (E1 : Q s s1).
+      { eapply Q_trans; [apply (Q_same s (set_attack s (Some (key, self)))); reflexivity|].
+        replace s1 with (snd (pop_slot (set_attack s (Some (key, self))) LAttackStart)) by (rewrite EP; reflexivity). apply Q_pop_slot. }
+      assert (E2 : Q s s2).
+      { destruct sc as [i|]; [eapply Q_trans; [exact E1|eapply GR; exact ER]|inversion ER; subst; exact E1]. }
+      eapply Q_trans; [exact E2|]. eapply Q_trans; [|eapply Q_do_hits; eassumption]. apply Q_emit. reflexivity.
     - destruct lm; [discriminate|]. inversion H; subst. apply Q_end_attack.
     - destruct (get_unit (units s) _); [eapply Q_set_hp; eassumption|inversion H; subst; apply Q_refl].
     - destruct (budget s <=? 0); inversion H; subst; [apply Q_refl|].
